@@ -343,6 +343,8 @@ func (r *Router) findOrCreateService(name string, options ServiceOptions, target
 func (r *Router) saveStateSnapshot() error {
 	// Writers are serialised, so that the snapshot written last is also the
 	// most recent one.
+	simYield("snapshot.lock", r)
+	defer simYield("snapshot.unlocked", r)
 	r.snapshotLock.Lock()
 	defer r.snapshotLock.Unlock()
 
@@ -371,6 +373,7 @@ func (r *Router) saveStateSnapshot() error {
 		err = closeErr
 	}
 	if err == nil {
+		simYield("snapshot.beforeRename", r)
 		err = os.Rename(tmpPath, r.statePath)
 	}
 	if err != nil {
